@@ -57,7 +57,7 @@ pub fn session(rng: &mut Rng, kmax: usize) -> (Vec<Item>, Vec<String>) {
     let n = 5 + rng.below(8);
     let mut have_saved = false;
     for _ in 0..n {
-        let t = rng.below(20);
+        let t = rng.below(23);
         let val = rng.range(1, 99);
         let d = rng.below(12);
         match t {
@@ -188,6 +188,23 @@ pub fn session(rng: &mut Rng, kmax: usize) -> (Vec<Item>, Vec<String>) {
                 tags.push("fail-in-force".into());
                 items.push(Item { a: "(force pr)".into(), b: "(set! g (+ g 1))".into(), rep: None, probe: false });
                 items.push(probe("(list g (force pr))"));
+            }
+            19 => {
+                // a definition that fails leaves the previous meaning of the name, also when the name is a macro keyword
+                tags.push("fail-define-of-keyword".into());
+                let (a, pr) = match rng.below(3) {
+                    0 => ("(define when (car '()))", "(when #t 1 2)"),
+                    1 => ("(define (unless c) (lambda))", "(unless #f 1 2)"),
+                    _ => ("(define kons (vector-ref v 99))", "(kons 1 2)"),
+                };
+                items.push(Item { a: a.into(), b: "'skipped".into(), rep: None, probe: false });
+                items.push(probe(pr));
+            }
+            20 => {
+                // self-evaluating and trivial forms after a failure
+                tags.push("probe-trivial-after-failure".into());
+                items.push(Item { a: fail_expr(rng), b: "'skipped".into(), rep: None, probe: false });
+                items.push(probe(*rng.pick(&["42", "\"s\"", "#t", "#\\a", "'sym", "g"])));
             }
             _ => {
                 tags.push("probe-failing".into());
